@@ -198,7 +198,7 @@ class Engine:
         self.depth = 0
         self.unmodelled = set()
         self.nqueries = 0; self.ndecisions = 0; self.solver_s = 0.0; self.total_paths = 0; self.cut_at = None; self.path_queries = 0; self.stack = []
-        self.hash_order = 'insertion'; self.max_depth = 2000
+        self.hash_order = 'insertion'; self.max_depth = 2000; self.capture_pc = False; self.captured = []; self.pre_len = None
 
     # ---------------- paths
     def reset_path(self, prefix=()):
@@ -214,11 +214,14 @@ class Engine:
         while work:
             pre = work.pop()
             self.reset_path(pre)
+            self.pre_len = None
             try:
                 ctx = mk_inputs(self)
-                self.cur_ctx = ctx
+                self.cur_ctx = ctx; self.pre_len = len(self.pc)
                 results.append(("ok", list(self.decisions), run(self, ctx)))
+                self._capture()
             except Panic as e:
+                self._capture()
                 msg = str(e) + " @ " + " > ".join(f"{a.split('>::')[-1]}:{b}" for a, b in getattr(e, "mir_stack", [])[-6:])
                 h = getattr(self, "on_panic", None)
                 results.append(("panic", list(self.decisions), h(self, self.cur_ctx, msg) if h else msg))
@@ -228,6 +231,14 @@ class Engine:
             work.extend(self.newalts)
             if limit and len(results) >= limit: break
         return results, time.time() - t0
+
+    def _capture(self):
+        """remember (precondition, path condition) of the finished path as SMT-LIB2 text (for the partition obligation)"""
+        if not getattr(self, "capture_pc", False) or self.pre_len is None: return
+        def dump(cs):
+            s = z3.Solver(); s.add(*cs) if cs else None
+            return s.to_smt2()
+        self.captured.append((dump(self.pc[:self.pre_len]), dump(self.pc)))
 
     def frontier(self, mk_inputs, run, target=64, max_rounds=100000):
         """Breadth-first expansion of decision prefixes until >= target open prefixes (for work partitioning).
